@@ -2,3 +2,5 @@ pub mod plan;
 pub mod trace;
 pub mod invariance;
 pub mod lifecycle;
+#[cfg(feature = "parallel")]
+pub mod rendezvous;
